@@ -265,19 +265,25 @@ def check_case(case, env, build):
             _fin(tt)
             import traceback
             names = [f.name for f in traceback.extract_tb(e.__traceback__)]
-            partial = bz.snapshot_fs(path) != fs0
+            fs_now = bz.snapshot_fs(path)
+            partial = fs_now != fs0
+            residue = ":tree-partially-applied" if partial else ""
+            if partial and set(fs_now) == set(fs0) and all(
+                    fs_now[k][:2] == fs0[k][:2] for k in fs0):
+                # everything was rolled back except executable bits: that
+                # residue is _FileMover.rollback not undoing chmod (listed
+                # under C13 as exec-bit-not-rolled-back), not a half-done
+                # file-system phase
+                residue = ":only-exec-bits-left-changed"
             if clash:
                 # its own class: must not hide behind the listed F18 ones
                 return violation(
                     "C14/apply-fails-on-unreported-name-clash-with-contentless"
-                    "-versioned-entry:%s%s" % (
-                        type(e).__name__,
-                        ":tree-partially-applied" if partial else ""),
+                    "-versioned-entry:%s%s" % (type(e).__name__, residue),
                     [case, kinds, [list(c) for c in clash], str(e)[:300]])
             return violation(
                 "C14/apply-raises-after-conflict-check:%s@%s%s" % (
-                    type(e).__name__, names[-1],
-                    ":tree-partially-applied" if partial else ""),
+                    type(e).__name__, names[-1], residue),
                 [case, kinds, names[-4:], str(e)[:300]])
     finally:
         _fin(tt)
